@@ -279,6 +279,12 @@ impl<'a> Exec<'a> {
                 return None;
             }
             if obs.len() < exp.len() {
+                // the handle (polled by `sweep` above, before the journal was read) already reported
+                // the exit: the actor is gone, the missing events will never happen
+                if matches!(self.ra[a].hobs, HandleObs::Exit(_)) {
+                    self.mismatch = true;
+                    return None;
+                }
                 return Some(format!("actor {a}: {} (after {} events)", exp[obs.len()].class(), obs.len()));
             }
             let ma = &self.model.actors[a];
